@@ -15,8 +15,14 @@ def run(tier, v):
     cov = e2ecommon.coverage(e, "one case = one scenario run; non-trivial = number of delivered notifications each judged by Justified(prev, cur) "
                                 "(new firing alert / new resolved alert with send_resolved / repeat_interval elapsed / cycle break)", ok_attempts)
     cov["drift"] = drift
-    return "model_checking", cov, e2ecommon.ASSUMPTIONS
+    # the whole program (app.App instances over loopback, real HTTP API, real webhook notifier): AtLeastOnce
+    from checks import appcommon
+    cov["app_system"] = appcommon.run_app_system(PID, tier, v)
+    return "model_checking", cov, e2ecommon.ASSUMPTIONS + appcommon.ASSUMPTIONS
 
 
 def replay(path, v):
+    if "appsys_" in path:
+        from checks import appcommon
+        return appcommon.replay(PID, path, v)
     raise vlib.Inconclusive("replay of a recorded scenario: run `bin/check C01` with the VERIF_SEED printed in the evidence")
